@@ -766,6 +766,7 @@ func runC08(p *an.Prog, r *an.Run, tier string) {
 	exp, _ := p.PkgConstInt("pool/store", "ExpireInterval")
 	drivers := p.Implementations(p.Iface("pool/store", "Store"))
 	r.Floor("drivers", len(drivers), 2)
+	checkResultsPrivate(p, r)
 	for _, d := range drivers {
 		m := p.MethodOf(d, "ActiveHosts")
 		if m == nil || driverKind(d) == "" {
